@@ -20,7 +20,15 @@ noinclude, includeonly, onlyinclude tags followed by runs of 10..2000 words or b
 kills a call that cannot be interrupted from Python by its CPU time).  Translator (vt/gen/c03_static.py): the regexes of pp.py are
 evaluated from the source, pinned, and checked for nested overlapping quantifiers (also on the patterns of the imported module);
 per magic, the number of reads of each args[i] along one control path is at most 1 (allow-list).  Coq: nest_cost r k (k+1 for
-r = 1, >= 2^(k+1) - 1 for r >= 2)."""
+r = 1, >= 2^(k+1) - 1 for r >= 2).
+Round 5: HTML-ISH FRAGMENT family (`<TAG ATTR="` + runs of 10..2000 blanks / newlines / words inside the attribute value + closed or
+unclosed tails, as argument 0..2 of every registered name; group testing: screening pages of a third of the names, a misbehaving
+page is taken apart into single calls).  Translator: EVERY regular expression of the expansion path (magics.if_error_rx, magic_time,
+the #expr tokenizer, templ/scanner split pattern, templ/parser name matchers) is evaluated statically, pinned by file + sha256 +
+flags and checked for nested overlapping quantifiers (theorem C03_expansion_regexes_pinned); the worker also lists the compiled
+patterns of the imported modules and of a Parser instance per known site and checks those objects.  When the translator's analysis
+of magics.py gives up, the verdict is fail-closed but the search goes on with the names of the imported module (a helper called
+from a method body is no longer mistaken for a decorator)."""
 import json
 
 from vt import core
